@@ -25,6 +25,8 @@ func init() {
 			"Does not decide: delivery order under all goroutine schedules of concurrent writers (a writer that loses the race for mu after release writes directly, which is allowed).",
 		Fixtures: []string{"lockset", "bounds"},
 		Variants: []Variant{
+			{Name: "queue-reconciled-only-on-registry-change", File: pkgNetmc + "/connection.go",
+				Old: "\tc.ensurePlayPacketQueue(s.State) // 1.20.2+\n", New: "\tif prevState != s {\n\t\tc.ensurePlayPacketQueue(s.State) // 1.20.2+\n\t}\n", Expect: "queue-reconciled"},
 			{Name: "queue-outside-lock", File: pkgNetmc + "/connection.go",
 				Old:    "\t\tc.mu.Lock()\n\t\tqueued, queueErr := c.playPacketQueue.Queue(packet)\n\t\tc.mu.Unlock()",
 				New:    "\t\tc.mu.Lock()\n\t\tq := c.playPacketQueue\n\t\tc.mu.Unlock()\n\t\tqueued, queueErr := q.Queue(packet)",
@@ -241,6 +243,8 @@ func runC14(c *Ctx) {
 		c.CheckAt("overflow", "error-propagated@bufferPacket", c.P.Pos(bp.Pos()), okRet,
 			"on the queueErr != nil edge bufferPacket must return that error")
 	}
+
+	checkQueueReconciledOnStateChange(c, lc)
 
 	// release: sink is the non-queueing writer; pointer cleared in the same critical section
 	ens := c.MustFunc(pkgNetmc + ":(*minecraftConn).ensurePlayPacketQueue")
